@@ -1,0 +1,11 @@
+//go:build verif
+
+package protocol
+
+import "github.com/enfein/mieru/v3/pkg/replay"
+
+// Verification hooks for property C06: the two process-wide replay caches.
+
+func VerifStreamReplayCache() *replay.ReplayCache { return streamReplayCache }
+
+func VerifPacketReplayCache() *replay.ReplayCache { return packetReplayCache }
